@@ -777,3 +777,65 @@ pub fn big_record_lib(rng: &mut Rng) -> (NLib, &'static str) {
     ast.structs.push(NStruct { dates: [1; 12], name: b"s".to_vec(), elems: vec![elem] });
     (ast, name)
 }
+
+/// A UTF-8 string of about `target` bytes (never more) made mostly of 2-, 3- and 4-byte characters, with an ASCII lead-in of 0..3 bytes so that
+/// character boundaries fall at every phase relative to any power-of-two block size. Never ends in NUL.
+pub fn long_nonascii(rng: &mut Rng, target: usize) -> Vec<u8> {
+    let mut s = String::with_capacity(target + 4);
+    for _ in 0..rng.usize(4) {
+        s.push('a');
+    }
+    let pool = ['é', 'ß', 'д', '中', '語', '€', '😀', '𠮷', 'x', '_'];
+    loop {
+        let c = *rng.pick(&pool);
+        if s.len() + c.len_utf8() > target {
+            break;
+        }
+        s.push(c);
+    }
+    while s.len() < target {
+        s.push('z');
+    }
+    s.into_bytes()
+}
+
+/// A library with ONE long, mostly non-ASCII string (4 KiB .. 65530 bytes) in one of its string-valued fields; lengths cluster around
+/// multiples of 4096 (+-3) and otherwise spread over the range. Returns the library and which field.
+pub fn long_string_lib(rng: &mut Rng) -> (NLib, &'static str) {
+    let len = if rng.bool() {
+        let k = 1 + rng.usize(15);
+        (4096 * k + rng.usize(7)).saturating_sub(3).min(65530)
+    } else {
+        rng.range(3000, 65530) as usize
+    };
+    let text = long_nonascii(rng, len);
+    let mut ast = NLib { version: 600, dates: [1; 12], name: b"longstr".to_vec(), units: (encode_ref(1e-3).unwrap(), encode_ref(1e-9).unwrap()), ..Default::default() };
+    let bnd = |props: Vec<(i16, Vec<u8>)>| NElem { elflags: None, plex: None, kind: NKind::Boundary { layer: 1, datatype: 0, xy: vec![0, 0, 4, 0, 4, 4, 0, 0] }, props };
+    let mut st = NStruct { dates: [1; 12], name: b"s".to_vec(), elems: vec![] };
+    let which = match rng.below(5) {
+        0 => {
+            ast.name = text;
+            st.elems.push(bnd(vec![]));
+            "libname"
+        }
+        1 => {
+            st.name = text;
+            st.elems.push(bnd(vec![]));
+            "strname"
+        }
+        2 => {
+            st.elems.push(NElem { elflags: None, plex: None, kind: NKind::Sref { sname: text, strans: None, xy: vec![1, 2] }, props: vec![] });
+            "sname"
+        }
+        3 => {
+            st.elems.push(NElem { elflags: None, plex: None, kind: NKind::Text { layer: 1, texttype: 0, presentation: None, pathtype: None, width: None, strans: None, xy: vec![0, 0], string: text }, props: vec![] });
+            "string"
+        }
+        _ => {
+            st.elems.push(bnd(vec![(7, text)]));
+            "propvalue"
+        }
+    };
+    ast.structs.push(st);
+    (ast, which)
+}
